@@ -49,7 +49,7 @@ CAUSE = {"nt_setitem": "nontensor-promotion", "nt_set_at": "nontensor-promotion"
          "mutate_result": "result-mutation", "isleaf_reuse": "address-reuse"}
 
 MATERIALISING = {"flatten_keys", "unflatten_keys", "detach", "_add_batch_dim", "_remove_batch_dim", "_maybe_remove_batch_dim",
-                 "_get_str", "_items_list", "_values_list"}
+                 "_items_list", "_values_list"}
 
 
 class Hook:
@@ -234,6 +234,8 @@ class Runner:
             cause = CAUSE.get(e["op"], e["op"])
             if cause == "metadata-under-lock" and "names" in methods and e["at"] != nodepath:
                 cause = "lazy-member-names"
+            elif cause == "metadata-under-lock" and e["at"] == nodepath and "_key_list" in methods:
+                cause = "lazy-own-names-setter"     # the lazy stack's own setter carries @erase_cache: not a recorded defect
             sig = {"cause": cause, "effect": e["effect"], "explained": True}
         else:
             sig = {"cause": "none", "explained": False, "methods": ",".join(methods), "label": label}
